@@ -493,6 +493,11 @@ func Run(t *testing.T, s *Spec) {
 				fmt.Fprintf(f, "%d %d %016x %016x %v\n", k, seed, s.Hash(plan), HashString(sb.String()), cls)
 				f.Close()
 			}
+			if f, err := os.OpenFile(dg+".plans", os.O_APPEND|os.O_CREATE|os.O_WRONLY, 0o644); err == nil {
+				pb, _ := json.Marshal(plan)
+				fmt.Fprintf(f, "%d %s\n", k, pb)
+				f.Close()
+			}
 			if f, err := os.OpenFile(dg+".full", os.O_APPEND|os.O_CREATE|os.O_WRONLY, 0o644); err == nil {
 				fmt.Fprintf(f, "%d %s\n", k, strings.ReplaceAll(sb.String(), ";", "\n  "))
 				f.Close()
